@@ -309,6 +309,34 @@ def check_bigtrunc(case, ctx):
         n_mal += not ok
         if not ok and r.files.get("out.fastq"):
             ctx.label("records-before-error:some")
+    # the same file with 8 bytes overwritten far behind the start: the reader meets an invalid stream (or a checksum
+    # mismatch) after the format was detected and chunks were handed out
+    # ... or a further gzip member whose first deflate block has the reserved block type: the stream is invalid, and
+    # the decompressor says so only after every record of the first member was handed out
+    reserved = b"\x1f\x8b\x08\x00\x00\x00\x00\x00\x00\x03" + b"\x07" + b"\x00" * 8
+    for frac in case["fracs"][:3] + ["reserved-block-member"]:
+        if frac == "reserved-block-member":
+            off, bad = len(data), data + reserved
+        else:
+            off = max(64, min(len(data) - 16, int(len(data) * frac)))
+            bad = data[:off] + bytes((7 * k + 201) % 256 for k in range(8)) + data[off + 8:]
+        okz, why = gunzip_oracle(bad)
+        if okz or bad == data:
+            continue
+        args, r = run_cutadapt(bad, "in.fastq.gz", case["cores"], case["buffer"], timeout=60, outext=case.get("outext", ""))
+        what = (f"{len(data)}-byte gzip file with 8 bytes overwritten at byte {off}" if frac != "reserved-block-member"
+                else f"{len(data)}-byte gzip file followed by a member whose deflate block has the reserved type")
+        if getattr(r, "timed_out", False):
+            args, r = run_cutadapt(bad, "in.fastq.gz", case["cores"], case["buffer"], timeout=120,
+                                   outext=case.get("outext", ""))
+            if getattr(r, "timed_out", False):
+                raise Violation(f"{what}: run did not terminate within 120 s ({args})", tag="hang")
+        if r.exit == 0:
+            raise Violation(f"{what} ({why}): cutadapt exited with status 0 ({args})", tag="silent")
+        if r.exit != "crash" and not r.errors:
+            raise Violation(f"{what} ({why}): exit status {r.exit} but no error message ({args})", tag="no-message")
+        ctx.label("damaged-late:" + ("checksum" if "check" in str(why).lower() or "crc" in str(why).lower() else "stream"))
+        n_mal += 1
     ctx.evaluations += len(case["fracs"])
     ctx.label(f"cores:{case['cores']}")
     ctx.label("output:" + (case.get("outext") or "plain"))
